@@ -219,9 +219,8 @@ struct World {
       bool answered = i < (int)tags.size();
       if (c >= 0 && i > c) { if (!answered) { viol = "request-after-connection-close-handed-to-handler-but-not-answered r" + std::to_string(i); return; } continue; }
       if (!answered) {
-        std::string sg = i == c ? (delays[i] ? "response-to-closing-request-never-written-handler-completes-after-callback" : "response-to-closing-request-never-written-handler-completes-in-callback")
-                       : c >= 0 ? (delays[i] ? "response-to-earlier-request-never-written-handler-pending-when-closing-request-arrives" : "response-to-earlier-request-never-written-handler-completes-in-callback")
-                       : (delays[i] ? "response-to-keep-alive-request-never-written-handler-completes-after-callback" : "response-to-keep-alive-request-never-written-handler-completes-in-callback");
+        std::string sg = std::string("response-never-written-to-") + (i == c ? "closing-request" : c >= 0 ? "request-before-closing-request" : "keep-alive-request")
+                       + (delays[i] ? "-handler-completes-after-callback" : "-handler-completes-in-callback");
         viol = sg + " r" + std::to_string(i) + " handler-delay=" + std::to_string(delays[i]) + (eof ? " (connection already closed by the server)" : ""); return; }
     }
     for (size_t i = 0; i < kinds.size(); i++) {
